@@ -335,6 +335,7 @@ fn fill_range_incl(v: &mut Vec<f32>, a: usize, b: usize, x: f32)
 // get_block_values: signature cut from the repository, body dropped (units bw_dec / Kani lane verify the decoder).
 // ASSUMED: the C03 block contract for the returned values; `Ok(None)` (block of another chromosome) and `Err` add no answer.
 //@extract fn bigtools/src/bbi/bigwigread.rs get_block_values
+//@rule R16
 //@sub /<R: BBIFileRead>/ => "" min=1
 //@sub /BigWigRead<R>/ => BigWigRead min=1
 //@sub /std::vec::IntoIter<Value>/ => Vec<Value> min=1
@@ -352,6 +353,7 @@ fn fill_range_incl(v: &mut Vec<f32>, a: usize, b: usize, x: f32)
 
 impl BigWigRead {
 //@extract method bigtools/src/bbi/bigwigread.rs values "impl<R> BigWigRead<R> where R: BBIFileRead"
+//@rule R16
 //@rule R8
 //@sub /self\.info\.chrom_id\(/ => self.chrom_id( min=1
 //@sub /search_cir_tree\(&self\.info, &mut self\.read, / => search_cir_tree(self, min=1
